@@ -195,7 +195,24 @@ func (vc *VC) callCommon(st *State, v *ssa.Call, cc *ssa.CallCommon, args []Term
 		}
 		spec := vc.P.findSpec(callee)
 		if spec == nil {
+			// nothing is known about the callee: where the function promises not to panic, the call
+			// must be covered by a recovering handler
+			if vc.spec.HasNoPanic && !(len(vc.spec.NoPanic) == 1 && vc.spec.NoPanic[0] == "-") {
+				vc.oblige("nopanic.callee-without-contract", label, vc.nopanicProps(), guard, "false",
+					"call of "+vc.P.specName(callee)+", which has no contract, is covered by a recovering handler", pos)
+			}
+			// locals the callee cannot reach keep their values
+			type kept struct{ addr, val Term }
+			var keep []kept
+			for _, a := range vc.privateCells {
+				if addr, ok := vc.vals[a]; ok {
+					keep = append(keep, kept{addr, vc.load(st, addr)})
+				}
+			}
 			vc.havocAll(st, fmt.Sprintf("call of %s without contract (havoc)", vc.P.specName(callee)))
+			for _, k := range keep {
+				vc.store(st, k.addr, k.val)
+			}
 			vc.setResults(v, vc.freshResults(sig, "r"))
 			return
 		}
@@ -207,7 +224,17 @@ func (vc *VC) callCommon(st *State, v *ssa.Call, cc *ssa.CallCommon, args []Term
 			}
 			names = append(names, n)
 		}
-		// closures called statically carry their bindings as extra args: not needed here
+		// a closure literal called (or deferred) directly: its captured variables are the bindings
+		if mc, ok := cc.Value.(*ssa.MakeClosure); ok {
+			env := map[string]Term{}
+			for i, f := range callee.FreeVars {
+				if i < len(mc.Bindings) {
+					env["&"+f.Name()] = vc.val(mc.Bindings[i])
+				}
+			}
+			vc.applyContractEnv(st, v, spec, names, args, callee.Signature, guard, pos, label, vc.pkgOf(callee), env, false)
+			return
+		}
 		vc.applyContract(st, v, spec, names, args, callee.Signature, guard, pos, label, vc.pkgOf(callee))
 		return
 	}
@@ -562,6 +589,10 @@ func (vc *VC) modifiesTargets(spec *FuncSpec, env *Env) (targets []modTarget, al
 
 func (vc *VC) allFieldTargets(env *Env, path string) []modTarget {
 	parts := strings.Split(path, ".")
+	if len(parts) >= 3 && vc.P.findPkgByName(parts[0], env.pkg) != nil {
+		// pkg.Type.field...
+		parts = append([]string{parts[0] + "." + parts[1]}, parts[2:]...)
+	}
 	t, _ := env.resolveType(parts[0])
 	if t == nil {
 		panic(execErr("unknown type in modifies all(" + path + ")"))
@@ -893,7 +924,14 @@ func (vc *VC) builtin(st *State, v *ssa.Call, b *ssa.Builtin, cc *ssa.CallCommon
 		vc.havocAll(st, "builtin copy (over-approximated)")
 		vc.bindFresh(v, guard)
 	case "recover":
-		vc.define(v, Term{S: "iface_nil", Sort: "Iface"})
+		// the value the goroutine is panicking with (nil when it is not), and the panic stops
+		if _, ok := vc.P.spec.GhostVars["panicking"]; ok {
+			cur := vc.get(st, "G_panicking", "Iface")
+			vc.define(v, Term{S: cur, Sort: "Iface"})
+			vc.set(st, "G_panicking", "Iface", "iface_nil")
+		} else {
+			vc.define(v, Term{S: "iface_nil", Sort: "Iface"})
+		}
 	case "print", "println":
 	case "ssa:wrapnilchk":
 		vc.define(v, args[0])
@@ -950,6 +988,9 @@ func (vc *VC) appendOp(st *State, v *ssa.Call, args []Term, guard string) {
 	// in-place append leaves the rest of the backing array alone
 	vc.assume(implies(fits, fmt.Sprintf("(forall ((j Int)) (! (=> (or (< j (+ (sl_off %s) (sl_len %s))) (>= j (+ (sl_off %s) %s))) (= (select %s j) (select %s j))) :pattern ((select %s j))))",
 		s.S, s.S, s.S, newLen, inner, oldInner, inner)))
+	// appending one element in place is a single store (stated outright: consequences of the two
+	// quantified facts above that specifications over the backing array need as an equation)
+	vc.assume(implies(and(fits, sx("=", tlen, "1")), sx("=", inner, sx("store", oldInner, sx("+", sx("sl_off", s.S), sx("sl_len", s.S)), strings.ReplaceAll(tread, "@K@", "0")))))
 	vc.setAt(st, name, sortName, sx("sl_ref", r), inner)
 	vc.define(v, Term{S: r, Sort: "Slice"})
 }
